@@ -34,6 +34,7 @@ void vub(const char* m) { nub++; printf(" UB:%s", m); finish(3); }
 void vrec(uint32_t a, uint32_t b) { if (nev++ < 400) printf(" %d:%d", a, b); }
 int harness(void);
 int main(int argc, char** argv) {
+  setvbuf(stdout, NULL, _IONBF, 0);      /* a replay may hang or crash in the code under test: keep what was reported */
   if (argc >= 3 && !strcmp(argv[1], "replay")) {
     FILE* f = fopen(argv[2], "r"); if (!f) { perror("replay"); return 2; }
     long cap = 1 << 16; rp = malloc(sizeof(int) * cap); int v;
